@@ -44,8 +44,9 @@ SHIPPED = [
 ]
 
 
-def load_equipment(eqpt, extra=(), power_mode=None, span=None, si=None):
-    """fresh equipment dict (never shared between designs); power_mode / Span / SI attributes optionally overridden"""
+def load_equipment(eqpt, extra=(), power_mode=None, span=None, si=None, edfa_attrs=None):
+    """fresh equipment dict (never shared between designs); power_mode / Span / SI attributes optionally overridden;
+    edfa_attrs: library options set on every amplifier model (e.g. {'out_voa_auto': True})"""
     from gnpy.tools.json_io import load_equipments_and_configs
     eq = load_equipments_and_configs(Path(eqpt), [Path(p) for p in extra], [])
     sp = eq['Span']['default']
@@ -55,6 +56,9 @@ def load_equipment(eqpt, extra=(), power_mode=None, span=None, si=None):
         setattr(sp, k, v)
     for k, v in (si or {}).items():
         setattr(eq['SI']['default'], k, v)
+    for k, v in (edfa_attrs or {}).items():
+        for a in eq['Edfa'].values():
+            setattr(a, k, v)
     return eq
 
 
@@ -164,12 +168,12 @@ class LoadError(Exception):
     """the shipped files could not be loaded (not a design outcome)"""
 
 
-def design(topo, eqpt, extra=(), power_mode=None, span=None, si=None, json_data=None, strip=False):
+def design(topo, eqpt, extra=(), power_mode=None, span=None, si=None, json_data=None, strip=False, edfa_attrs=None):
     """load + real designed_network under the recorders -> (network, equipment, reference channel, recorder)"""
     from gnpy.tools.json_io import network_from_json
     from gnpy.tools.worker_utils import designed_network
     try:
-        eq = load_equipment(eqpt, extra, power_mode, span, si) if not isinstance(eqpt, dict) else eqpt
+        eq = load_equipment(eqpt, extra, power_mode, span, si, edfa_attrs) if not isinstance(eqpt, dict) else eqpt
         if strip:
             json_data = stripped_topology(topo)
         net = network_from_json(copy.deepcopy(json_data), eq) if json_data is not None else load_topology(topo, eq)
